@@ -103,6 +103,7 @@ func init() {
 	for k := int64(0); k < 9; k++ {
 		c3t = append(c3t, conc3("two-keys-two-stripes-a"+itoa(k), map[string]int64{"nk": 2, "concurrency": 1, "a.cmd": k}, c3b+"2 keys, 2 lock stripes (same and different stripes), first connection's command fixed per job"))
 	}
+	c3t = append(c3t, conc3("multi-get-vs-set-one-stripe", map[string]int64{"nk": 2, "concurrency": 0, "getkeys": 2, "a.cmd": 8, "a.nkeys": 1, "a.getkey0": 0, "a.getkey1": 1, "a.getquiet": 0, "b.key": 1, "b.cmd": 0}, c3b+"A: get of keys 0 and 1, B: set of key 1; one lock stripe; per-key linearization"))
 	reg(Check{ID: "C03", Level: "model_checking", Assumptions: append([]string{
 		"A5: engine mutex model, any waiter may win; scheduling points: key-lock acquire/release and every backend (model handler) call; lock/atomic operations inside package metrics and the channel operations on each connection's private reply channels are not scheduling points (independent of the observed state)",
 		"schedule reduction: a goroutine that has just been preempted to takes its next visible operation before it can be preempted again, and a preemption to a goroutine that immediately blocks on a held mutex is dropped (equivalent to not preempting there); deadlocks are still reached because forced switches are never dropped",
@@ -111,7 +112,7 @@ func init() {
 	}, orcaAssumptions...),
 		Quick: []Job{
 			conc3("one-key", map[string]int64{"nk": 1, "concurrency": 0}, c3b+"1 key, 1 lock stripe"),
-			{Pkg: "./zz_verif/orcah", Func: "ZZLockWiring", Reach: []string{"wired"}, Bounds: "Locked / LockedWithExisting with concurrency 0..2, single/multi reader: the orcas of both ports hold the same locker objects; stripe index a function of the key bytes (keys of 1..3 symbolic bytes)"},
+			{Pkg: "./zz_verif/orcah", Func: "ZZLockWiring", Reach: []string{"wired"}, Bounds: "Locked / LockedWithExisting with concurrency 0..2, single/multi reader: the orcas of both ports hold the same locker objects; stripe index a function of the key bytes (keys of 1..3 symbolic bytes); every key of a 3-key get is locked on the stripe of that key alone"},
 		},
 		Thorough: c3t})
 
